@@ -92,3 +92,20 @@ package frozenfunds
 //@   requires f != nil
 //@   ensures bucket: result == ffModel(f, height)
 //@   modifies ffCache
+
+//@ # total value of the funds in coin co among the first n items of a bucket
+//@ spec fundSum(l []Item, n int, co types.CoinID) int = n <= 0 ? 0 : fundSum(l, n-1, co) + (l[n-1].Coin == co ? l[n-1].Value.val : 0)
+//@ ghost anyFundCoin() types.CoinID
+
+//@ # C01/C16: a matured bucket is marked deleted as a whole and the ledger is told, per coin, exactly the total it held
+//@ func (*FrozenFunds).Delete
+//@   serves C01 C16
+//@   let m = ffModel(f, height)
+//@   requires f != nil && f.bus != nil
+//@   requires wf: m != nil ==> allocated(m) && allocated(m.List) && forall i int :: 0 <= i && i < len(m.List) ==> m.List[i].Value != nil && allocated(m.List[i].Value)
+//@   ensures gone: m != nil ==> m.deleted
+//@   ensures reported: m != nil ==> ledgerDelta(f.bus.checker, anyFundCoin()) == old(ledgerDelta(f.bus.checker, anyFundCoin())) - old(fundSum(m.List, len(m.List), anyFundCoin()))
+//@   ensures nobucket: m == nil ==> ledgerDelta == old(ledgerDelta)
+//@   ensures listkept: m != nil ==> m.List == old(m.List)
+//@   loop 0 invariant idx: -1 <= rangeindex && (rangeindex < len(ff.List) || (rangeindex == -1 && len(ff.List) == 0)) && ff == m && ff.List == old(m.List)
+//@   loop 0 invariant sum: ledgerDelta(f.bus.checker, anyFundCoin()) == old(ledgerDelta(f.bus.checker, anyFundCoin())) - old(fundSum(m.List, rangeindex + 1, anyFundCoin()))
